@@ -61,12 +61,26 @@ def encVD (vds : List VoteData) : String :=
       | .other => "U"
     t ++ ":" ++ ",".intercalate (vd.data.map encStr)))
 
+def acctName : Acct → String
+  | .a i => "a" ++ toString i
+  | .o i => "o" ++ toString i
+
+def holderName : Holder → String
+  | .acct x => acctName x
+  | .treasury t => "t" ++ toString t
+  | .addr h => String.ofList h
+  | .pool => "pool"
+  | .distr => "distr"
+  | .collector => "collector"
+
 def parseRcpts (tok : String) : List Recipient :=
   if tok == "-" then []
   else (tok.splitOn "+").map (fun p =>
     let aw := p.splitOn "*"
     let a := aw.getD 0 ""
-    let addr : Str := if a.startsWith "0x" then a.toList else accHex a
+    let addr : Str := if a.startsWith "0x" then a.toList else match decodeAcc a with
+      | some x => accHex x
+      | none => a.toList
     { addr := addr, weight := natTok (aw.getD 1 "0") })
 
 def parseOp (line : String) : Option Op :=
@@ -87,7 +101,9 @@ def parseOp (line : String) : Option Op :=
   | "setowner" => some (.setOwner (strTok (g 1)) (strTok (g 2)) (match g 3 with
       | "none" => none
       | "zero" => some none
-      | a => some (some (accHex ((decodeAcc a).getD a)))))
+      | a => some (some (match decodeAcc a with
+          | some x => accHex x
+          | none => a.toList))))
   | "prevote" => some (.prevote (g 1) (g 2) (strTok (g 3)) (natTok (g 4)))
   | "vote" => some (.vote (g 1) (g 2) (strTok (g 3)) (natTok (g 4)) (parseVD (g 5)))
   | "consent" => some (.consent (g 1) (g 2))
@@ -124,7 +140,7 @@ def dumpModules (s : State) : List String :=
   let sp := "SP fee=" ++ toString s.st.params.oracleFee ++ " chains=" ++ joinOrDash (s.st.params.chains.map encStr)
   let ts := s.st.tenants.map (fun t =>
     let contract := if t.contract.isEmpty then "-" else if t.contract == "auto".toList then "auto" else String.ofList (normalizeHex t.contract)
-    "T " ++ toString t.id ++ " admins=" ++ joinOrDash t.admins ++ " denom=" ++ encStr t.denom ++ " period=" ++ toString t.period ++
+    "T " ++ toString t.id ++ " admins=" ++ joinOrDash (t.admins.map acctName) ++ " denom=" ++ encStr t.denom ++ " period=" ++ toString t.period ++
       " method=" ++ (if t.mint then "mintable_contract" else "native") ++ " contract=" ++ contract)
   let us := (allRecs s.st).map (fun p =>
     "U " ++ toString p.1 ++ " " ++ toString p.2.id ++ " req=" ++ encStr p.2.req ++ " amt=" ++ toString p.2.amount ++ " denom=" ++ encStr p.2.denom ++
@@ -141,20 +157,20 @@ def dumpModules (s : State) : List String :=
   let ps := (sortBy (fun a b => valKeyLt a.1 b.1) s.os.prevotes).map (fun p => "P " ++ p.1 ++ " " ++ encStr p.2)
   let vs := (sortBy (fun a b => valKeyLt a.1 b.1) s.os.votes).map (fun p => "V " ++ p.1 ++ " " ++ encVD p.2)
   let ms := (sortBy (fun a b => valKeyLt a.1 b.1) s.os.miss).map (fun p => "M " ++ p.1 ++ " " ++ toString p.2)
-  let fs := (sortBy (fun a b => valKeyLt a.1 b.1) s.os.feeders).map (fun p => "F " ++ p.1 ++ " " ++ p.2)
+  let fs := (sortBy (fun a b => valKeyLt a.1 b.1) s.os.feeders).map (fun p => "F " ++ p.1 ++ " " ++ acctName p.2)
   [sp] ++ ts ++ us ++ is ++ ls ++ [op, r] ++ ps ++ vs ++ ms ++ fs
 
 /-- recipients seen so far that are not named accounts (kept across dumps, as the harness does) -/
 def updateSeen (seen : List Str) (s : State) : List Str :=
   (allRecs s.st).foldl (fun acc p => p.2.rcpt.foldl (fun a r =>
-    if (holderOfHex r.addr).startsWith "a" || a.contains r.addr then a else a ++ [r.addr]) acc) seen
+    if (match holderOfHex r.addr with | .acct _ => true | _ => false) || a.contains r.addr then a else a ++ [r.addr]) acc) seen
 
 def dumpBalances (s : State) (seen : List Str) : List String :=
   let extras := sortBy strLt ((s.st.tenants.filter (·.mint)).map mintDenom).eraseDups
   let denoms := trackedDenoms ++ extras
-  let holders : List String := (List.range 10).map (fun i => "a" ++ toString i) ++ s.st.tenants.map (fun t => treasuryName t.id) ++
-    (sortBy strLt seen).map String.ofList ++ ["pool", "distr"]
-  let bs := holders.flatMap (fun h => denoms.filterMap (fun d => if s.bank h d = 0 then none else some ("B " ++ h ++ " " ++ encStr d ++ " " ++ toString (s.bank h d))))
+  let holders : List Holder := (List.range 10).map (fun i => Holder.acct (.a i)) ++ s.st.tenants.map (fun t => treasuryName t.id) ++
+    (sortBy strLt seen).map Holder.addr ++ [.pool, .distr]
+  let bs := holders.flatMap (fun h => denoms.filterMap (fun d => if s.bank h d = 0 then none else some ("B " ++ holderName h ++ " " ++ encStr d ++ " " ++ toString (s.bank h d))))
   let sortedDenoms := sortBy strLt denoms
   let ss := (List.range s.vals.length).flatMap (fun i => match getVal s.vals i with
     | some v =>
@@ -173,12 +189,12 @@ def dumpGenesis (g : Genesis) : List String :=
   ["SP " ++ toString g.sparams.oracleFee ++ " " ++ joinOrDash (g.sparams.chains.map encStr)] ++
   g.utxrs.map (fun p => "U " ++ toString p.1 ++ " " ++ toString p.2.id ++ " " ++ encStr p.2.req ++ " " ++ toString p.2.amount ++ " " ++ encStr p.2.denom ++ " " ++
     nftStr p.2.nft ++ " " ++ toString p.2.created ++ " " ++ rcptStr p.2.rcpt) ++
-  g.tenants.map (fun t => "T " ++ toString t.id ++ " " ++ joinOrDash t.admins ++ " " ++ encStr t.denom ++ " " ++ toString t.period ++ " " ++ toString t.mint ++ " " ++ encStr t.contract) ++
+  g.tenants.map (fun t => "T " ++ toString t.id ++ " " ++ joinOrDash (t.admins.map acctName) ++ " " ++ encStr t.denom ++ " " ++ toString t.period ++ " " ++ toString t.mint ++ " " ++ encStr t.contract) ++
   ["OP " ++ toString g.oparams.votePeriod ++ " " ++ toString g.oparams.threshold ++ " " ++ toString g.oparams.slashFraction ++ " " ++ toString g.oparams.slashWindow ++ " " ++ toString g.oparams.maxMiss] ++
   (sortBy (fun a b => valKeyLt a.1 b.1) g.votes).map (fun p => "V " ++ p.1 ++ " " ++ encVD p.2) ++
   (sortBy (fun a b => valKeyLt a.1 b.1) g.prevotes).map (fun p => "P " ++ p.1 ++ " " ++ encStr p.2) ++
   (sortBy (fun a b => valKeyLt a.1 b.1) g.miss).map (fun p => "M " ++ p.1 ++ " " ++ toString p.2) ++
-  (sortBy (fun a b => valKeyLt a.1 b.1) g.feeders).map (fun p => "F " ++ p.1 ++ " " ++ p.2)
+  (sortBy (fun a b => valKeyLt a.1 b.1) g.feeders).map (fun p => "F " ++ p.1 ++ " " ++ acctName p.2)
 
 def pairStr (p : Nat × Nat) : String := toString p.1 ++ ":" ++ toString p.2
 
@@ -366,27 +382,30 @@ def parseTx (l : String) : Tx :=
   let fee := if kv "fee" == "-" then [] else (parseCoins (kv "fee"))
   let tx0 : Tx := { msgs := msgs, signers := [], payer := payer, fee := fee, gas := natTok (kv "gas") }
   let signers := if kv "signers" == "auto" then (requiredSigners tx0).getD []
-    else ((kv "signers").splitOn ",").map (fun t => (decodeAcc t).getD t)
+    else ((kv "signers").splitOn ",").filterMap decodeAcc
   { tx0 with signers := signers }
 
 def dumpAnte (a : AState) : List String :=
   let s := a.s
-  let holders : List String := (List.range 10).map (fun i => "a" ++ toString i) ++ (List.range 5).map (fun i => "o" ++ toString i) ++
-    s.st.tenants.map (fun t => treasuryName t.id) ++ ["pool", "collector"]
+  let holders : List Holder := (List.range 10).map (fun i => Holder.acct (.a i)) ++ (List.range 5).map (fun i => Holder.acct (.o i)) ++
+    s.st.tenants.map (fun t => treasuryName t.id) ++ [.pool, .collector]
   let denoms : List Str := ["uusdc".toList, "setl".toList]
   ["H " ++ toString s.h] ++ dumpModules s ++
-  holders.flatMap (fun h => denoms.filterMap (fun d => if s.bank h d = 0 then none else some ("B " ++ h ++ " " ++ encStr d ++ " " ++ toString (s.bank h d)))) ++
+  holders.flatMap (fun h => denoms.filterMap (fun d => if s.bank h d = 0 then none else some ("B " ++ holderName h ++ " " ++ encStr d ++ " " ++ toString (s.bank h d)))) ++
   ["SUP =uusdc " ++ toString (a.supply "uusdc".toList), "NV " ++ toString s.vals.length, "NG " ++ toString a.grants.length]
 
 /-- a real block: end-blockers, then the next block's begin-blocker sweeps the fee collector into distribution -/
 def realBlock (a : AState) : AState × StepRes :=
   let r := blockStep a.s
-  let s' := { r.st with bank := fun h d => if h = "collector" then 0 else r.st.bank h d }
+  let s' := { r.st with bank := fun h d => if h = Holder.collector then 0 else r.st.bank h d }
   ({ a with s := s' }, r)
 
 def anteInit (pr : Nat) (cr : Bool) : AState :=
   let s0 := initState pr cr
-  let funded : Bank := fun h d => if d = "uusdc".toList && ((List.range 10).any (fun i => h = "a" ++ toString i) || (List.range 5).any (fun i => h = "o" ++ toString i)) then 1000000000000000 else 0
+  let funded : Bank := fun h d => if d = "uusdc".toList && (match h with
+    | .acct (.a i) => decide (i < 10)
+    | .acct (.o i) => decide (i < 5)
+    | _ => false) then 1000000000000000 else 0
   let a0 : AState := { s := { s0 with bank := funded }, grants := [], supply := fun d => if d = "uusdc".toList then 16000000000000000 else 0, prices := Facts.defaultGasPrices }
   (realBlock a0).1
 
